@@ -3,6 +3,7 @@ package main
 import (
 	"fmt"
 	"go/token"
+	"go/types"
 	"strings"
 
 	"golang.org/x/tools/go/ssa"
@@ -158,14 +159,27 @@ func r162(c *Ctx, r *R) {
 	if p == nil {
 		return
 	}
+	// the function Pin starts with `go` (a closure or a method) that
+	// runs a ticker
 	var wd *ssa.Function
-	for _, a := range p.AnonFuncs {
-		for _, ci := range callsIn(a) {
+	instrs(p, func(i ssa.Instruction) {
+		gi, ok := i.(*ssa.Go)
+		if !ok {
+			return
+		}
+		g := gi.Common().StaticCallee()
+		if g == nil {
+			g = fnOfValue(gi.Common().Value)
+		}
+		if g == nil || g.Blocks == nil {
+			return
+		}
+		for _, ci := range callsIn(g) {
 			if nameMatches(callName(ci.Common()), "time.NewTicker") {
-				wd = a
+				wd = g
 			}
 		}
-	}
+	})
 	if wd == nil {
 		r.Bad("watchdog", p.Pos(), "Pin has no progress watchdog goroutine (a stalled pin never gives up)")
 		return
@@ -173,13 +187,13 @@ func r162(c *Ctx, r *R) {
 	// cancel guarded by time.Since(last) > PinTimeout
 	okCancel := false
 	for _, ci := range callsIn(wd) {
-		if _, isFV := ci.Common().Value.(*ssa.FreeVar); !isFV && ci.Common().StaticCallee() != nil {
+		if ci.Common().StaticCallee() != nil || ci.Common().IsInvoke() {
 			continue
 		}
-		if ci.Common().IsInvoke() {
+		// dynamic call of a captured or received func: cancelRequest()
+		if sig, ok := ci.Common().Value.Type().Underlying().(*types.Signature); !ok || sig.Params().Len() != 0 {
 			continue
 		}
-		// dynamic call of a captured func: cancelRequest()
 		if guardedBy(ci.Block(), func(g Guard) bool {
 			b, ok := g.Cond.(*ssa.BinOp)
 			if !ok || !g.Branch || (b.Op != token.GTR && b.Op != token.GEQ) {
